@@ -278,6 +278,12 @@ def scenarios(ctx):
                     upd=rnd.choice([1, 2, 10]), noise=noise, seed=rnd.randint(0, 10 ** 6), acq=rnd.choice(["lcbsc", "lcbsc", "uniform"]))
         for mp in ([1, 3] if ctx.quick else [1, 2, 3]):
             out.append(dict(base, maxpar=mp, sched_seed=rnd.randint(0, 10 ** 6), p_ready=rnd.choice([0.0, 0.5, 1.0]), p_run=rnd.choice([0.0, 0.5, 1.0])))
+    # precomputed initial evidence + parallel, unready schedules: the acquisition gate must count only SUBMITTED initial evidence
+    for k in range(4 if ctx.quick else 16):
+        bs = [1, 2][k % 2]
+        base = dict(kind="bo", dim=1, bounds=[[-1.0, 2.0]], prior=[[-0.75, 1.75]], bs=bs, bpa=[1, 2][(k // 2) % 2], init=dict(pre=[4, 6][k % 2]),
+                    n_evidence=[4, 6][k % 2] + bs * 4, upd=[1, 10][k % 2], noise=0.1, seed=rnd.randint(0, 10 ** 6), acq="lcbsc")
+        out.append(dict(base, maxpar=3, sched_seed=rnd.randint(0, 10 ** 6), p_ready=[0.0, 0.3][k % 2], p_run=[0.0, 0.5][(k // 2) % 2]))
     # direct acquisition calls
     classes = ["LCBSC", "MaxVar", "RandMaxVar", "ExpIntVar", "Uniform"]
     n_acq = 2 if ctx.quick else 10
